@@ -111,7 +111,7 @@ func c14Child(scPath string) int {
 	}
 	var calls []*call
 	var returnedCount atomic.Int64
-	fed := 0
+	fed, nPause := 0, 0
 	var crawls sync.WaitGroup
 	invoke := func(i int, op string) {
 		c := &call{name: op, idx: i, callSeq: evCount.Add(1)}
@@ -126,7 +126,15 @@ func c14Child(scPath string) int {
 		}
 		switch op {
 		case "P":
-			run(func() { pause.Pause("verif") })
+			// independent controllers pause with their own reasons (operator, disk watchdog, WARC-queue watchdog)
+			nPause++
+			msg := []string{"Paused", "Not enough disk space!!!", "WARC writing queue exceeded the worker count"}[nPause%3]
+			if sc.Concurrent {
+				rngMu.Lock()
+				msg = []string{"Paused", "Not enough disk space!!!", "Paused"}[rng.Intn(3)]
+				rngMu.Unlock()
+			}
+			run(func() { pause.Pause(msg) })
 		case "R":
 			run(func() { pause.Resume() })
 		case "S1":
@@ -285,6 +293,33 @@ func c14Child(scPath string) int {
 			if c.name == "R" && c.returned.Load() && c.callSeq > ackSeq {
 				rep.violation("resume-left-worker-blocked", fmt.Sprintf("sequence [%s]: Resume #%d was invoked after worker %s had acknowledged the pause and returned, but the worker was never resumed", seqStr, c.idx, w), map[string]any{"events": c14Fmt(evs)})
 				break
+			}
+		}
+	}
+	// a worker parked in its pause acknowledgement while nothing is paused any more
+	if still && len(outstanding) == 0 && !pause.IsPaused() {
+		for w := range lastAck {
+			stageStopped := false
+			for _, op := range sc.Seq {
+				if (op == "S1" && strings.HasPrefix(w, "pre.")) || (op == "S2" && strings.HasPrefix(w, "post.")) || (op == "S3" && strings.HasPrefix(w, "fin.")) {
+					stageStopped = true
+				}
+			}
+			if !stageStopped {
+				// re-sample: the flag is cleared a moment after the last worker was received from
+				time.Sleep(200 * time.Millisecond)
+				evMu.Lock()
+				resumedSince := false
+				for _, e := range events {
+					if e.Point == "pause.resumed" && e.ID == w && e.Seq > lastAck[w] {
+						resumedSince = true
+					}
+				}
+				evMu.Unlock()
+				if !resumedSince && !pause.IsPaused() {
+					rep.violation("worker-blocked-while-not-paused", fmt.Sprintf("sequence [%s]: worker %s sits in a pause acknowledgement although the pipeline is not paused and no call is outstanding: it will never take work again", seqStr, w), map[string]any{"events": c14Fmt(evs)})
+					break
+				}
 			}
 		}
 	}
